@@ -8,7 +8,7 @@ package dnsforward
 //vx:native
 //vx:entry vxC02Response reach=replaced,delivered,allowlisted-name,protection-off,filtering-off,https-hint-blocked,aaaa-disabled
 //vx:stub (*github.com/AdguardTeam/dnsproxy/proxy.Proxy).Resolve vxC02Resolve
-//vx:note drives the real handleDNSRequest pipeline; upstream answer section of 0..2 (quick) / 0..3 (thorough) records, each CNAME / A / AAAA / HTTPS (ipv4hint and ipv6hint lists of 0..2 addresses, either order) / TXT; for every name or address handed to the rule engines a fresh symbolic pair of verdicts (allow engine, block engine); protection, global/client filtering, allow-listing of the queried name: quick = the applicable case and each single reason for not applying, thorough = all combinations; AAAA-disabled symbolic; question type A (quick) / A, AAAA, HTTPS (thorough)
+//vx:note drives the real handleDNSRequest pipeline; upstream answer section of 0..2 records (thorough mode 2: exactly 3), each CNAME / A / AAAA / HTTPS (ipv4hint and ipv6hint lists of 0..2 addresses, either order) / TXT; for every name or address handed to the rule engines a fresh symbolic pair of verdicts (allow engine, block engine); protection, global/client filtering, allow-listing of the queried name: quick = the applicable case and each single reason for not applying; thorough = three slices of the full product: (0) all 32 combinations of the five switches with an A question and <=2 records, (1) the quick scenarios with AAAA and HTTPS questions and <=2 records, (2) the applicable case with an A question and exactly 3 records; AAAA-disabled symbolic; question type A in quick
 //vx:note outside: rule syntax -> verdict (urlfilter); record payloads are distinct concrete constants (the verdicts are what is symbolic); blocking-mode response shapes (C01)
 
 import (
@@ -75,12 +75,22 @@ func vxC02Response() {
 	const qname = "name.example.org"
 	// ---- configuration ----
 	protOn, globalFiltering, clientOwn, clientFiltering, nameAllowed := true, true, false, false, false
+	// thorough = three slices of the full product (which is ~10^7 paths):
+	// mode 0: every combination of the five switches, A question, <=2 records;
+	// mode 1: the quick scenarios, AAAA and HTTPS questions, <=2 records;
+	// mode 2: filtering applicable, A question, exactly 3 records.
+	mode := -1
 	if vx.Thorough() {
+		mode = vx.Choice("mode", 3)
+	}
+	if mode == 0 {
 		protOn = vx.Bool("protectionEnabled")
 		globalFiltering = vx.Bool("globalFiltering")
 		clientOwn = vx.Bool("clientUsesOwnSettings")
 		clientFiltering = vx.Bool("clientFiltering")
 		nameAllowed = vx.Bool("queriedNameAllowlisted")
+	} else if mode == 2 {
+		// the applicable case only
 	} else {
 		// quick: the applicable case and each single reason for not applying
 		switch vx.Choice("scenario", 6) {
@@ -116,11 +126,10 @@ func vxC02Response() {
 	d.SetEnabled(globalFiltering)
 
 	// ---- upstream answer ----
-	maxRR := 3
-	if vx.Thorough() {
-		maxRR = 4
+	n := 3
+	if mode != 2 {
+		n = vx.Choice("nrecords", 3)
 	}
-	n := vx.Choice("nrecords", maxRR)
 	var answer []dns.RR
 	var items []vxC02Item
 	hdr := func(t uint16) dns.RR_Header {
@@ -202,8 +211,8 @@ func vxC02Response() {
 
 	// ---- the request ----
 	qtype := uint16(dns.TypeA)
-	if vx.Thorough() {
-		qtype = []uint16{dns.TypeA, dns.TypeAAAA, dns.TypeHTTPS}[vx.Choice("qtype", 3)]
+	if mode == 1 {
+		qtype = []uint16{dns.TypeAAAA, dns.TypeHTTPS}[vx.Choice("qtype", 2)]
 	}
 	req := &dns.Msg{}
 	req.Id = 1
